@@ -58,7 +58,97 @@ CLAIMS["C04"] = dict(
          "poll/child-poll projection against the model and evaluates holds_C04 on the real traces.",
     note=TB, design_ref="DESIGN.md §7 C04")
 
+CLAIMS["C05"] = dict(
+    text="Theorem C05_try_join (FcProps/C05.lean): for both try_join models (array/Vec and tuple arities 0..), every "
+         "number of children, all child scripts (any Ok/Err assignment, pending counts, injected panic), all histories and "
+         "both waker strategies, the monitor holds_C05 n holds on the model trace: a poll answers Ready(Ok vals) only when "
+         "no child has failed, every child resolved Ok and vals[c] is child c's value for all c; it answers Ready(Err e) "
+         "exactly with the only error any child has returned so far, and that error was returned during this very poll; it "
+         "answers Pending only while no error has been seen and some child is unresolved; no child is polled once an error "
+         "has been seen (neither later in that poll nor afterwards); misuse only after the final result/unwind/drop. "
+         "That Ok values already produced are dropped, not returned, is the value accounting of C02. Proof: World-free step "
+         "invariant (Sim) relating the slot table and counter to what the children answered. The check re-proves, rebuilds "
+         "the harness in std/alloc/no_std, runs try_join over arrays, Vecs and tuples 1..12 with every child as potential "
+         "first failure, diffs the poll/child-poll projection against the model and evaluates holds_C05 on the real traces.",
+    note=TB, design_ref="DESIGN.md §7 C05")
+
+CLAIMS["C06"] = dict(
+    text="Theorem C06_race (FcProps/C06.lean): for race (array, Vec and tuple share one model: rotating scan, return on the "
+         "first Ready), every number of children, all child scripts, all histories, the monitor holds_C06 holds on the model "
+         "trace: a poll answers Ready(v) exactly when v is the only value any child has resolved to so far and it was "
+         "produced during this very poll; Pending only while no child has resolved; no child is polled once any child has "
+         "resolved (neither later in the winning poll nor afterwards); children are released only by the race's own drop. "
+         "Future::race is the same model at arity 2 by correspondence. The check re-proves, rebuilds the harness in "
+         "std/alloc/no_std, runs race over arrays, Vecs, tuples 1..12 and Future::race, diffs the projection (polls, child "
+         "polls, child drops) against the model and evaluates holds_C06 on the real traces.",
+    note=TB + " Zero futures are outside C06 (model: Pending forever; real code: division by zero in the indexer).",
+    design_ref="DESIGN.md §7 C06")
+
+CLAIMS["C07"] = dict(
+    text="Theorem C07_race_ok (FcProps/C07.lean): for the three race_ok variants (array: index order; Vec: MaybeDone, "
+         "finished children dropped at once; tuple: rotating scan), every number of children incl. 0, all scripts (any Ok/Err "
+         "assignment), all histories, the monitor holds_C07 n holds on the model trace: Ready(Ok v) exactly with the only Ok "
+         "value any child has produced so far, produced in this very poll; Ready(Err es) only when no child succeeded, every "
+         "child has failed, es[c] is child c's error for all c, and (n = 0 or) a child failed during this very poll; Pending "
+         "only while no child succeeded and some child has not failed; no child is polled after a success, and a failed "
+         "child is never polled again. Proof: one Sim instance for all flag combinations. The check re-proves, rebuilds the "
+         "harness in std/alloc/no_std, runs race_ok over arrays, Vecs, tuples 1..12 with error-heavy scripts, diffs the "
+         "projection against the model and evaluates holds_C07 on the real traces.",
+    note=TB, design_ref="DESIGN.md §7 C07")
+
+CLAIMS["C19"] = dict(
+    text="Theorem C19_wait_until (FcProps/C19.lean): for future.wait_until and stream.wait_until (child 0 = deadline, "
+         "child 1 = inner), all deadline scripts, inner scripts of the right kind (Case.kindOk), all histories incl. spurious "
+         "polls, wake-ups, drop and an injected panic, the monitor holds_C19 holds on the model trace: the deadline is polled "
+         "only while it has not resolved, the inner child only after it has; while the deadline is unresolved every poll "
+         "answers Pending and the inner child has never been polled; from the poll in which the deadline resolves on, every "
+         "poll polls the inner child and answers exactly what the inner child answered (Pending / its output / its item / "
+         "None). The check re-proves, rebuilds the harness in the three builds, runs both adapters with random scripts and "
+         "histories, diffs the projection against the model and evaluates holds_C19 on the real traces.",
+    note=TB + " Hypothesis kindOk (futures only resolve, streams only yield/end) is what Rust's types guarantee.",
+    design_ref="DESIGN.md §7 C19")
+
+CLAIMS["C08"] = dict(
+    text="Theorems C08_merge, C08_merge_exactly_once, C08_exactly_once (FcProps/C08.lean): for merge (array, Vec and "
+         "tuple share one model: rotating scan, readiness-gated, yield on the first item, count ended inputs), every number "
+         "of inputs incl. 0, all input scripts (items, Pending steps, end, panic), all histories and both waker strategies: "
+         "holds_C08 n holds on the model trace - a poll answers Some(v) exactly when v is the one item taken from an input "
+         "during this poll (so an item is yielded in the poll that takes it, without waiting for other inputs), nothing is "
+         "polled after an item was taken in the same poll, Pending only if no item was taken and some input has not ended, "
+         "None exactly when every input has ended and (n = 0 or) the last one ended in this very poll - and at every poll "
+         "boundary the sequence of yielded values equals the sequence of items the inputs produced (every item exactly "
+         "once, per-input order kept). The check re-proves, rebuilds the harness in the three builds, runs merge over "
+         "arrays, Vecs (incl. empty), tuples 0..12 and Stream::merge, diffs the projection against the model and evaluates "
+         "holds_C08 on the real traces.",
+    note=TB + " The empty array/Vec case relies on the fix: commit recorded in known_findings.json (D1).",
+    design_ref="DESIGN.md §7 C08, §9 D1")
+
+CLAIMS["C09"] = dict(
+    text="Theorems C09_zip, C09_zip_rows, C09_rows (FcProps/C09.lean): for zip (one model for array/Vec/tuple), every "
+         "n >= 1, all input scripts of any lengths, all histories, both waker strategies: holds_C09 n holds on the model "
+         "trace - a row is yielded exactly when every input has delivered one more item than there are rows so far, and "
+         "row[c] is input c's latest (= k-th) item; Pending only while some input's item for the current row is missing and "
+         "no input ended; None in the poll in which an input is found to have ended; an input is polled only while its item "
+         "for the current row is missing and never after any input ended - hence every input is at most one item ahead of "
+         "the rows (C09_zip_rows). That unmatched buffered items are dropped, never yielded, is the value accounting of the "
+         "C02 monitor, which this check also evaluates on every real zip trace (theorem: C02 once claimed). The check "
+         "re-proves, rebuilds the harness, runs zip over arrays, Vecs, tuples 1..12 and Stream::zip with unequal lengths, "
+         "diffs the FUN and C02 projections against the model and evaluates both monitors on the real traces.",
+    note=TB, design_ref="DESIGN.md §7 C09")
+
+CLAIMS["C10"] = dict(
+    text="Theorems C10_chain, C10_chain_order, C10_sequential (FcProps/C10.lean): for chain (one model for array/Vec/"
+         "tuple), every number of inputs incl. 0, all scripts (incl. empty inputs and inputs that pend before ending), all "
+         "histories: holds_C10 n holds on the model trace - an input is polled only after every earlier input returned None "
+         "and nothing is polled after an item was taken in the same poll; Some(v) exactly for the item taken in this poll; "
+         "None exactly when all inputs have ended; the yielded sequence equals the sequence of produced items and their "
+         "sources are non-decreasing in input order (C10_chain_order), i.e. the output is the concatenation. The check "
+         "also evaluates the C03 monitor (no poll of an ended input) on every real chain trace. It re-proves, rebuilds the "
+         "harness in the three builds, runs chain over arrays, Vecs, tuples 1..12 and Stream::chain, diffs the projection "
+         "against the model and evaluates the monitors on the real traces.",
+    note=TB, design_ref="DESIGN.md §7 C10")
+
 PENDING = "theorem not yet proved in this revision; the property is exercised by the shared correspondence runs but not claimed"
 NOT_APPLICABLE = {p: PENDING for p in
-                  ["C02", "C03", "C05", "C06", "C07", "C08", "C09", "C10", "C11", "C12", "C13", "C14",
-                   "C15", "C17", "C18", "C19"]}
+                  ["C02", "C03", "C11", "C12", "C13", "C14",
+                   "C15", "C17", "C18"]}
